@@ -267,7 +267,7 @@ class ValuesSetter(FunctionContract):
         self.qualname = {'container': 'fsic.core.containers.VectorContainer.values@setter', 'model': 'fsic.core.interfaces.ModelInterface.values@setter'}[which]
 
     def scenarios(self):
-        return ['array', 'array-wrong-shape', 'scalar', 'no-variables/array', 'no-variables/scalar']
+        return ['array', 'array-wrong-shape', 'array-wrong-shape/row-length', 'scalar', 'no-variables/array', 'no-variables/scalar']
 
     def setup(self, interp, scenario):
         import numpy as np
@@ -294,7 +294,7 @@ class ValuesSetter(FunctionContract):
 
         class NewValues(np.ndarray):          # passes isinstance(_, np.ndarray); only shape and row iteration are used
             pass
-        shape = (len(names), n) if scenario.endswith('array') and 'wrong' not in scenario else (len(names) + 1, n)
+        shape = (len(names), n) if scenario.endswith('array') and 'wrong' not in scenario else (len(names), 1) if scenario.endswith('row-length') else (len(names) + 1, n)
         if 'scalar' in scenario:
             new = 1.5
         else:
